@@ -120,3 +120,51 @@ func init() {
 		fmt.Print(tortureModule(seed))
 	}
 }
+
+func init() {
+	// vcheck --dev files <f.ll>...: run the single-input monitors of C01, C02, C04, C06, C17 on the given files and
+	// print what they would report (triage helper for new corpus material).
+	devExtra["files"] = func(args []string) {
+		scratch, _ := os.MkdirTemp("", "vdev")
+		defer os.RemoveAll(scratch)
+		findings := fw.LoadFindings()
+		for _, f := range args {
+			b, err := os.ReadFile(f)
+			if err != nil {
+				fmt.Println(f, "unreadable")
+				continue
+			}
+			src := corpus.Source{ID: "dev/" + f, Text: func() (string, error) { return string(b), nil }}
+			for _, p := range []struct {
+				prop string
+				run  func(r *fw.Rec)
+			}{
+				{"C01", func(r *fw.Rec) { c01One(r, src.ID, "original", string(b), false) }},
+				{"C02", func(r *fw.Rec) { c02Source(r, src) }},
+				{"C04", func(r *fw.Rec) { c04Source(r, src) }},
+				{"C06", func(r *fw.Rec) { c06Corpus(r, src) }},
+				{"C17", func(r *fw.Rec) { c17Corpus(r, src) }},
+			} {
+				r := fw.NewRec(&fw.Ctx{Prop: p.prop, Tier: "quick", Seed: 1, Scratch: scratch}, src.ID)
+				pan, msg, _ := fw.Guard(func() { p.run(r) })
+				if pan {
+					fmt.Printf("%s %s MONITOR-PANIC %s\n", f, p.prop, firstLine(msg))
+				}
+				for _, v := range r.Violations {
+					v.Prop = p.prop
+					st := "VIOLATION"
+					if fw.MatchOpen(findings, v) != nil {
+						st = "known"
+					}
+					fmt.Printf("%s %s %s %s :: %s\n", f, p.prop, st, v.Key, fw.Trunc(v.What, 300))
+				}
+				for k, n := range r.Inconcl {
+					fmt.Printf("%s %s inconclusive %s x%d\n", f, p.prop, k, n)
+				}
+				if len(r.Violations) == 0 && len(r.Inconcl) == 0 {
+					fmt.Printf("%s %s ok evals=%d\n", f, p.prop, r.Evals)
+				}
+			}
+		}
+	}
+}
